@@ -100,6 +100,12 @@ def gen_cases(tier, seed):
         for base in ('A%sB', '1%s5', '%s', 'HELLO%sWORLD', '12%s'):
             cases.append(common.mk(base % ch, tag='almost'))
             cases.append(common.mk(base % ch, tag='almost', mode=rng.choice(['alphanumeric', 'numeric'])))
+    # hanzi requested for text outside GB2312 - some of it inside its supersets GBK / GB18030, in the rows the range check lets pass
+    for text in ('ⅰⅱ', 'ⅰ汉', '汉ⅹ', '·—', 'ɑɡ', 'ńň', '︵︶', '汉字ⅲ', '䶮', '𠀀', '€', '汉€', 'abc', '１２３', '汉字'):
+        for fn in ('make', 'make_qr'):
+            cases.append(common.mk(text, tag='hanzi-superset', fn=fn, mode='hanzi'))
+            cases.append(common.mk(text, tag='hanzi-superset', fn=fn, mode='hanzi', encoding='gbk') if fn == 'make' else
+                         common.mk(text, tag='hanzi-superset', fn=fn, mode='HANZI', version=5))
     # sequences of double-byte characters at the edges of the two Shift JIS ranges (8140-9FFC, E040-EBBF): whether the
     # *whole* content is kanji is decided character by character - a later character outside the ranges makes it byte
     leads = [0xEB, 0xEA, 0xE0, 0x9F, 0x81, 0xEC, 0x80]
@@ -155,7 +161,14 @@ def after(case, q, ex, rec):
             rec.deviation('C07', 'accepted-illegal-mode', {'mode': kw.get('mode')})
         return
     except (UnicodeError, LookupError):
-        return  # the text -> bytes policy refuses: not a mode question
+        # the text -> bytes policy refuses. With mode='hanzi' the policy *is* the mode question: hanzi means GB2312, and text
+        # GB2312 cannot represent is not representable in the requested mode -> refused with ValueError
+        if str(kw.get('mode')).lower() == 'hanzi' and isinstance(content, str):
+            if ex is None:
+                rec.deviation('C07', 'accepted-unrepresentable', {'mode': 'hanzi', 'why': 'not encodable in GB2312', 'content': content[:20]})
+            elif isinstance(ex, ValueError):
+                rec.count('requested_mode_refused')
+        return
     p = parts[0]
     if case.get('tag', '').startswith('two-byte'):
         rec.count('two_byte_inputs')
